@@ -35,9 +35,10 @@ func errorDirected(s *ssa.BasicBlock, fail failPred, depth int) bool {
 		return fail(t)
 	case *ssa.If:
 		// a further test whose one edge fails and the block has no side effects other than calls computing the test
+		// both ways on must fail: "x && y → error" does not make x alone a refusal
 		a := errorDirected(s.Succs[0], fail, depth+1)
 		b := errorDirected(s.Succs[1], fail, depth+1)
-		return a || b
+		return a && b
 	case *ssa.Jump:
 		// e.g. "x = err; goto cleanup-return": follow single-pred jump targets
 		return errorDirected(s.Succs[0], fail, depth+1)
@@ -313,4 +314,33 @@ func calleeIs(c *Call, suffixes ...string) bool {
 		}
 	}
 	return false
+}
+
+// guardsDeep: the refusal guards of fn and of the same-package helpers fn calls and whose error
+// it propagates (depth 2): extracting a block with its checks into a helper keeps the refusals.
+func guardsDeep(fn *ssa.Function, fail failPred, depth int) []CmpGuard {
+	out := cmpGuards(fn, fail)
+	if depth >= 2 {
+		return out
+	}
+	seen := map[*ssa.Function]bool{}
+	for _, cl := range Calls(fn) {
+		h := cl.Fn
+		if h == nil || h == fn || seen[h] || len(h.Blocks) == 0 || h.Pkg == nil {
+			continue
+		}
+		pf := fn
+		for pf.Parent() != nil {
+			pf = pf.Parent()
+		}
+		if h.Pkg != pf.Pkg {
+			continue
+		}
+		if cl.Value() == nil || len(errValues(cl.Value())) == 0 || !errorPropagated(cl.Value(), fail) {
+			continue
+		}
+		seen[h] = true
+		out = append(out, guardsDeep(h, nil, depth+1)...)
+	}
+	return out
 }
